@@ -86,6 +86,46 @@ class NoiseExpression(Expr):
             return x
         return x(self.var)
 
+    def _check_quantity(self, x, op):
+        """Noise expressions of different quantities (say a noise voltage
+        and a noise current) cannot be added or subtracted."""
+
+        if (x.quantity != self.quantity and x.quantity != 'undefined'
+                and self.quantity != 'undefined'):
+            raise ValueError('Cannot determine %s %s %s since the quantities %s and %s are incompatible' %
+                             (self, op, x, self.quantity, x.quantity))
+
+    def _product(self, x, mapping, op):
+        """Return class and units for the product (or quotient) of self with x
+        using the same quantity tables as for other expressions."""
+
+        if not isinstance(x, Expr):
+            return self.__class__, self.units
+
+        xquantity, yquantity = x.quantity, self.quantity
+        if xquantity == 'undefined':
+            xquantity = 'constant'
+        if yquantity == 'undefined':
+            yquantity = 'constant'
+
+        key = (yquantity, xquantity)
+        if key not in mapping and op == '*':
+            key = (xquantity, yquantity)
+        if key not in mapping:
+            raise ValueError('Cannot determine %s(%s) %s %s(%s) since the units of the result are unsupported.' %
+                             (self.__class__.__name__, self, op,
+                              x.__class__.__name__, x))
+        quantity = mapping[key]
+        if quantity == 'constant':
+            quantity = 'undefined'
+
+        cls = self._class_by_quantity(quantity)
+        if op == '*':
+            units = self.units * x.units
+        else:
+            units = self.units / x.units
+        return cls, units
+
     def __add__(self, x):
         """Add noise spectra (on power basis if uncorrelated)."""
 
@@ -93,6 +133,8 @@ class NoiseExpression(Expr):
 
         if not isinstance(x, NoiseExpression):
             raise ValueError('Cannot add %s and %s' % (self, x))
+
+        self._check_quantity(x, '+')
 
         if x == 0:
             return self.__class__(self, nid=self.nid)
@@ -119,6 +161,8 @@ class NoiseExpression(Expr):
         if not isinstance(x, NoiseExpression):
             raise ValueError('Cannot subtract %s and %s' % (self, x))
 
+        self._check_quantity(x, '-')
+
         if x == 0:
             return self.__class__(self, nid=self.nid)
 
@@ -136,10 +180,16 @@ class NoiseExpression(Expr):
             raise ValueError('Cannot multiply %s and %s' % (self, x))
 
         x = self.__compat__(x)
-        return self.__class__(self.expr * x, nid=self.nid)
+        cls, units = self._product(x, self._mul_mapping, '*')
+        ret = cls(self.expr * x, nid=self.nid)
+        ret.units = units
+        return ret
 
     def __rmul__(self, x):
-        return self.__class__(self.expr * x, nid=self.nid)
+        cls, units = self._product(x, self._mul_mapping, '*')
+        ret = cls(self.expr * x, nid=self.nid)
+        ret.units = units
+        return ret
 
     def __div__(self, x):
         if isinstance(x, NoiseExpression) and self.nid != x.nid:
@@ -152,6 +202,14 @@ class NoiseExpression(Expr):
     def __eq__(self, x):
         try:
             if self.nid != x.nid:
+                return False
+        except:
+            pass
+
+        try:
+            # A noise voltage is never equal to a noise current
+            if (x.quantity != self.quantity and x.quantity != 'undefined'
+                    and self.quantity != 'undefined'):
                 return False
         except:
             pass
